@@ -285,45 +285,51 @@ def relaxStep (n : Nat) (c : Nat → Nat → α) (colSol : Nat → Int) (v : Nat
       else .ok { s with pred := pred', d := upd s.d j v2 }
     else .ok s
 
+/-- `if (up == low) { … }` (`:1448-1483`): the columns of minimal distance are collected in
+`colList[low..up-1]` and searched for an unassigned one -/
+def djScan (n : Nat) (colSol : Nat → Int) (s : Dj α) : Res (Dj α) :=
+  if s.up = s.low then
+    -- last = low; min = d[colList[up++]]
+    match rd n s.colList s.up with
+    | .error e => .error e
+    | .ok j0 =>
+      match rd n s.d j0 with
+      | .error e => .error e
+      | .ok m0 =>
+        match loopM (n - (s.low + 1)) (fun t st => minStep n s.d s.low (s.low + 1 + t) st) { colList := s.colList, up := s.low + 1, min := m0 } with
+        | .error e => .error e
+        | .ok st =>
+          match loopM (st.up - s.low) (fun t f => unasgStep n colSol st.colList (s.low + t) f) none with
+          | .error e => .error e
+          | .ok f => .ok { s with last := s.low, colList := st.colList, up := st.up, min := st.min, found := f }
+  else .ok s
+
+/-- `if (!unassignedFound) { … }` (`:1485-1519`): the next column of the list is scanned, the
+distances of the columns not yet on the list are updated through its row -/
+def djRelax (n : Nat) (c : Nat → Nat → α) (colSol : Nat → Int) (v : Nat → α) (s : Dj α) : Res (Dj α) :=
+  -- j1 = colList[low]; low++; i = colSol[j1]; h = assignCost(i, j1) - v[j1] - min
+  match rd n s.colList s.low with
+  | .error e => .error e
+  | .ok j1 =>
+    match rd n colSol j1 with
+    | .error e => .error e
+    | .ok i0 =>
+      let i := szOfInt i0
+      if ¬ i < n then .error .ub else
+      let h := c i j1 - v j1 - s.min
+      match loopM (n - s.up) (fun t st => relaxStep n c colSol v i h s.min (s.up + t) st)
+          { d := s.d, pred := s.pred, colList := s.colList, up := s.up, found := none } with
+      | .error e => .error e
+      | .ok r => .ok { s with low := s.low + 1, d := r.d, pred := r.pred, colList := r.colList, up := r.up, found := r.found }
+
 /-- one pass through the body of `do { … } while (!unassignedFound)` (`:1448-1519`) -/
 def djIter (n : Nat) (c : Nat → Nat → α) (colSol : Nat → Int) (v : Nat → α) (s : Dj α) : Res (Dj α) :=
-  let s1 : Res (Dj α) :=
-    if s.up = s.low then
-      -- last = low; min = d[colList[up++]]
-      match rd n s.colList s.up with
-      | .error e => .error e
-      | .ok j0 =>
-        match rd n s.d j0 with
-        | .error e => .error e
-        | .ok m0 =>
-          let up0 := s.up + 1
-          match loopM (n - up0) (fun t st => minStep n s.d s.low (up0 + t) st) { colList := s.colList, up := up0, min := m0 } with
-          | .error e => .error e
-          | .ok st =>
-            match loopM (st.up - s.low) (fun t f => unasgStep n colSol st.colList (s.low + t) f) none with
-            | .error e => .error e
-            | .ok f => .ok { s with last := s.low, colList := st.colList, up := st.up, min := st.min, found := f }
-    else .ok s
-  match s1 with
+  match djScan n colSol s with
   | .error e => .error e
   | .ok s =>
     match s.found with
     | some _ => .ok s
-    | none =>
-      -- j1 = colList[low]; low++; i = colSol[j1]; h = assignCost(i, j1) - v[j1] - min
-      match rd n s.colList s.low with
-      | .error e => .error e
-      | .ok j1 =>
-        match rd n colSol j1 with
-        | .error e => .error e
-        | .ok i0 =>
-          let i := szOfInt i0
-          if ¬ i < n then .error .ub else
-          let h := c i j1 - v j1 - s.min
-          match loopM (n - s.up) (fun t st => relaxStep n c colSol v i h s.min (s.up + t) st)
-              { d := s.d, pred := s.pred, colList := s.colList, up := s.up, found := none } with
-          | .error e => .error e
-          | .ok r => .ok { s with low := s.low + 1, d := r.d, pred := r.pred, colList := r.colList, up := r.up, found := r.found }
+    | none => djRelax n c colSol v s
 
 /-- `do { … } while (!unassignedFound)`; returns the final state and `endOfPath` -/
 def djLoop (n : Nat) (c : Nat → Nat → α) (colSol : Nat → Int) (v : Nat → α) : Nat → Dj α → Res (Dj α × Nat)
